@@ -237,7 +237,7 @@ impl Scenario for AcceptScenario {
             cfg,
             chunk: rng.below(5) as u8,
             chunk_seed: rng.next_u64(),
-            latency: if rng.chance(1, 3) {
+            latency: if rng.chance(3, 5) {
                 (rng.below(50), rng.below(50))
             } else {
                 (0, 0)
@@ -274,6 +274,77 @@ struct Tx {
     is_read_response: bool,
     /// held back by the start-up gate: nothing of it may reach the handler
     gated: bool,
+    /// the scripted outstation's own labelling of this transmission
+    valid: bool,
+    answers: Option<u64>,
+}
+
+/// Classifies a solicited response against the request the master has outstanding for that outstation at instant `t`.
+/// Returns the name of a probe to bump, if any.
+fn classify_solicited(
+    tx: &mut Tx,
+    t: u64,
+    outstanding: &mut BTreeMap<u16, Req>,
+    alive: bool,
+    timeout: u64,
+) -> Option<&'static str> {
+    let ctrl = refapp::Ctrl::from_u8(tx.bytes[0]);
+    let src = tx.src;
+    let req = outstanding.get(&src).cloned();
+    // Any well-formed response from this outstation that carries exactly the sequence number and FIR the master is
+    // waiting for, in time, cannot be told apart from the genuine answer - whatever the scripted outstation meant by it
+    // (a stale answer to an earlier request that was held up, a truncation right after the IIN, a raw injection).
+    // The master may accept it; from then on the oracle no longer knows the state of this request.
+    let indistinguishable = |r: &Req, bytes: &[u8]| {
+        !ctrl.uns
+            && ctrl.seq == r.next_seq
+            && ctrl.fir == r.expect_fir
+            && t <= r.deadline
+            && (refapp::decode_fragment(bytes).is_ok() || refapp::response_parses_leniently(bytes))
+    };
+    match req {
+        Some(mut r)
+            if alive
+                && !r.finished
+                && (r.uncertain
+                    || (!(tx.valid && tx.answers == r.order && r.order.is_some())
+                        && indistinguishable(&r, &tx.bytes))) =>
+        {
+            r.uncertain = true;
+            outstanding.insert(src, r);
+            Some("probe.indistinguishable_deviation")
+        }
+        Some(mut r) if alive && tx.valid && tx.answers == r.order && r.order.is_some() && !r.finished => {
+            if t < r.deadline && ctrl.seq == r.next_seq && ctrl.fir == r.expect_fir {
+                tx.must_accept = true;
+                tx.is_read_response = r.func == refapp::FUNC_READ;
+                // the series continues with the next sequence number and a fresh timeout
+                r.next_seq = (r.next_seq + 1) & 0x0F;
+                r.expect_fir = false;
+                r.deadline = t + timeout;
+                if ctrl.fin {
+                    r.finished = true;
+                }
+                outstanding.insert(src, r);
+                None
+            } else if t > r.deadline {
+                tx.must_reject = true;
+                Some("probe.late_response")
+            } else if t == r.deadline {
+                // arrival exactly at the deadline: either the fragment or the time-out wins, and what follows
+                // for this request depends on it
+                r.uncertain = true;
+                outstanding.insert(src, r);
+                Some("probe.arrival_ties_with_deadline")
+            } else {
+                None
+            }
+        }
+        _ => {
+            tx.must_reject = true;
+            None
+        }
+    }
 }
 
 #[derive(Clone, Debug)]
@@ -338,6 +409,8 @@ pub fn analyse(
     let mut integrity_done: BTreeMap<u16, bool> = BTreeMap::new();
     // unsolicited transmissions not yet taken by the master's application layer: indices into `txs` per source
     let mut pending_unsol: BTreeMap<u16, Vec<usize>> = BTreeMap::new();
+    // solicited responses that arrived in the millisecond of a task boundary, waiting for their processing point
+    let mut pending_sol: BTreeMap<u16, Vec<usize>> = BTreeMap::new();
     let mut tie: BTreeMap<u16, u64> = BTreeMap::new();
     let mut nontrivial = false;
     let mut fp = 0u64;
@@ -477,7 +550,10 @@ pub fn analyse(
                     confirms: 0,
                     is_read_response: false,
                     gated: false,
+                    valid: *valid,
+                    answers: *answers,
                 };
+                let mut deferred = false;
                 if func == refapp::FUNC_UNSOL_RESPONSE
                     && ctrl.uns
                     && ctrl.fir
@@ -497,72 +573,18 @@ pub fn analyse(
                         .iter()
                         .any(|(a, bt, bo)| a == src && bt == t && order < bo)
                 {
-                    // tie with a task boundary: don't care
-                    tie.insert(*src, *t);
+                    // in the millisecond of a task boundary: judged when the master's application layer actually takes the fragment
+                    // (hook H5), which says on which side of the boundary that was; if it never does, nothing depended on it
+                    pending_sol.entry(*src).or_default().push(txs.len());
+                    deferred = true;
                     bump("probe.arrival_ties_with_task_boundary");
                 } else if func == refapp::FUNC_RESPONSE {
-                    let req = outstanding.get(src).cloned();
                     let alive = task_alive.get(src).copied().unwrap_or(false);
-                    // Any well-formed response from this outstation that carries exactly the sequence number and FIR the master is
-                    // waiting for, in time, cannot be told apart from the genuine answer - whatever the scripted outstation meant by it
-                    // (a stale answer to an earlier request that was held up, a truncation right after the IIN, a raw injection).
-                    // The master may accept it; from then on the oracle no longer knows the state of this request.
-                    let indistinguishable = |r: &Req| {
-                        !ctrl.uns
-                            && ctrl.seq == r.next_seq
-                            && ctrl.fir == r.expect_fir
-                            && *t <= r.deadline
-                            && (refapp::decode_fragment(bytes).is_ok()
-                                || refapp::response_parses_leniently(bytes))
-                    };
-                    match req {
-                        Some(mut r)
-                            if alive
-                                && !r.finished
-                                && (r.uncertain
-                                    || (!(*valid && *answers == r.order && r.order.is_some())
-                                        && indistinguishable(&r))) =>
-                        {
-                            r.uncertain = true;
-                            outstanding.insert(*src, r);
-                            bump("probe.indistinguishable_deviation");
-                        }
-                        Some(mut r)
-                            if alive
-                                && *valid
-                                && *answers == r.order
-                                && r.order.is_some()
-                                && !r.finished =>
-                        {
-                            if *t < r.deadline && ctrl.seq == r.next_seq && ctrl.fir == r.expect_fir
-                            {
-                                tx.must_accept = true;
-                                tx.is_read_response = r.func == refapp::FUNC_READ;
-                                // the series continues with the next sequence number and a fresh timeout
-                                r.next_seq = (r.next_seq + 1) & 0x0F;
-                                r.expect_fir = false;
-                                r.deadline = *t + timeout_of(*src);
-                                if ctrl.fin {
-                                    r.finished = true;
-                                }
-                                outstanding.insert(*src, r);
-                            } else if *t > r.deadline {
-                                tx.must_reject = true;
-                                bump("probe.late_response");
-                            } else if *t == r.deadline {
-                                // arrival exactly at the deadline: either the fragment or the time-out wins, and what follows
-                                // for this request depends on it
-                                r.uncertain = true;
-                                outstanding.insert(*src, r);
-                                bump("probe.arrival_ties_with_deadline");
-                            }
-                        }
-                        _ => {
-                            tx.must_reject = true;
-                            if task_alive.values().any(|a| *a) {
-                                nontrivial = true;
-                            }
-                        }
+                    if let Some(p) = classify_solicited(&mut tx, *t, &mut outstanding, alive, timeout_of(*src)) {
+                        bump(p);
+                    }
+                    if tx.must_reject && task_alive.values().any(|a| *a) {
+                        nontrivial = true;
                     }
                 } else {
                     // not a response function at all
@@ -587,7 +609,9 @@ pub fn analyse(
                     (kind.len() as u64) % 17,
                     tx.uns as u64,
                 ]);
-                if tx.must_accept {
+                if deferred {
+                    // counted at the processing point
+                } else if tx.must_accept {
                     bump("probe.fragment_judged_must_accept");
                 } else if tx.must_reject {
                     bump("probe.fragment_judged_must_reject");
@@ -596,13 +620,38 @@ pub fn analyse(
                 }
                 txs.push(tx);
             }
-            H::MasterRx { src, bytes, .. } => {
+            H::MasterRx { t: t_rx, src, bytes } => {
                 // a restart indication the master may act on closes the start-up gate again (C17); it counts from the moment
                 // the fragment carrying it is processed, whether or not the master accepts that fragment (closing it too
                 // often only makes unsolicited data don't-care for longer)
                 let closes = bytes.len() >= 4 && bytes[1] >= 129 && bytes[2] & 0x80 != 0;
                 if closes && bytes[1] != refapp::FUNC_UNSOL_RESPONSE {
                     integrity_done.insert(*src, false);
+                }
+                if bytes.len() >= 2 && bytes[1] == refapp::FUNC_RESPONSE {
+                    // a solicited response that arrived in the millisecond of a task boundary is judged here, where the master
+                    // takes it: the history is exact about what the master had done before this point
+                    let idx = pending_sol.get_mut(src).and_then(|q| {
+                        let k = q.iter().position(|i| txs[*i].bytes == *bytes)?;
+                        Some(q.remove(k))
+                    });
+                    if let Some(i) = idx {
+                        let alive = task_alive.get(src).copied().unwrap_or(false);
+                        let mut tx = txs[i].clone();
+                        if let Some(p) = classify_solicited(&mut tx, *t_rx, &mut outstanding, alive, timeout_of(*src)) {
+                            bump(p);
+                        }
+                        if tx.must_accept {
+                            bump("probe.fragment_judged_must_accept");
+                            bump("probe.tie_resolved_at_processing_point");
+                        } else if tx.must_reject {
+                            bump("probe.fragment_judged_must_reject");
+                            bump("probe.tie_resolved_at_processing_point");
+                        } else {
+                            bump("probe.fragment_not_judged");
+                        }
+                        txs[i] = tx;
+                    }
                 }
                 if bytes.len() >= 4 && bytes[1] == refapp::FUNC_UNSOL_RESPONSE {
                     // the oldest transmission of exactly these octets from that source that has not been judged yet
